@@ -82,6 +82,7 @@ type B implements Node { id: ID! q: Query b: B s: Int }
 union U = A | B
 input In { a: Int l: [In] n: In s: String }
 type Query { q: Query a: A b: B u: U node: Node s: String i(x: In, l: [[Int]]): Int }
+schema { query: Query mutation: Query subscription: Query }
 `
 
 type c02Family struct {
@@ -192,6 +193,7 @@ var c02Families = []c02Family{
 type c02FamilyCase struct {
 	Family string `json:"family"`
 	Size   int    `json:"size"`
+	Op     string `json:"op,omitempty"` // "", "mutation" or "subscription": the operation kind the family member is wrapped in
 }
 
 func c02RunFamily(c c02FamilyCase) (time.Duration, string) {
@@ -209,6 +211,9 @@ func c02RunFamily(c c02FamilyCase) (time.Duration, string) {
 		return 0, ""
 	}
 	text := fam.Build(c.Size)
+	if c.Op != "" && strings.HasPrefix(text, "{") {
+		text = c.Op + text
+	}
 	doc, perr := parser.ParseQuery(&ast.Source{Input: text})
 	if perr != nil {
 		return 0, "" // the family member does not parse: nothing to validate
@@ -260,7 +265,7 @@ func TestC02(t *testing.T) {
 	if r.ReplayIfRequested() {
 		return
 	}
-	for _, c := range c02Corpus {
+	for _, c := range append(append([]valCase{}, c02Corpus...), corpusValCases("C02")...) {
 		c := c
 		r.Begin("corpus", func() interface{} { return c })
 		v, ran := c02Eval(c)
@@ -279,30 +284,32 @@ func TestC02(t *testing.T) {
 		if fi%nshards != shard {
 			continue
 		}
-		var prev time.Duration
-		for _, size := range []int{256, 512, 1024, 2048, 4096} {
-			c := c02FamilyCase{fam.Name, size}
-			writeInflight("C02", "family", c)
-			r.Begin("family", func() interface{} { return c })
-			d, v := c02RunFamily(c)
-			r.End()
-			r.Case(true, fmt.Sprintf("family:%s:%d", fam.Name, size))
-			r.Class("family")
-			if v == "" && d > c02Bound(size) {
-				v = fmt.Sprintf("%d-byte document took %v to validate (bound %v)", size, d, c02Bound(size))
-			}
-			if v == "" && prev > 50*time.Millisecond && d > 20*prev {
-				if d2, _ := c02RunFamily(c); d2 > 20*prev {
-					v = fmt.Sprintf("validation time grew from %v to %v when the document doubled to %d bytes", prev, d2, size)
+		for _, opKind := range []string{"", "mutation", "subscription"} {
+			var prev time.Duration
+			for _, size := range []int{256, 512, 1024, 2048, 4096} {
+				c := c02FamilyCase{fam.Name, size, opKind}
+				writeInflight("C02", "family", c)
+				r.Begin("family", func() interface{} { return c })
+				d, v := c02RunFamily(c)
+				r.End()
+				r.Case(true, fmt.Sprintf("family:%s:%d:%s", fam.Name, size, opKind))
+				r.Class("family")
+				if v == "" && d > c02Bound(size) {
+					v = fmt.Sprintf("%d-byte document took %v to validate (bound %v)", size, d, c02Bound(size))
 				}
-			}
-			if v != "" {
-				r.Violation("family", c, "%s", v)
-				break
-			}
-			prev = d
-			if size == 4096 {
-				familyMs[fam.Name] = float64(d.Microseconds()) / 1000
+				if v == "" && prev > 50*time.Millisecond && d > 20*prev {
+					if d2, _ := c02RunFamily(c); d2 > 20*prev {
+						v = fmt.Sprintf("validation time grew from %v to %v when the document doubled to %d bytes", prev, d2, size)
+					}
+				}
+				if v != "" {
+					r.Violation("family", c, "%s", v)
+					break
+				}
+				prev = d
+				if size == 4096 && float64(d.Microseconds())/1000 > familyMs[fam.Name] {
+					familyMs[fam.Name] = float64(d.Microseconds()) / 1000
+				}
 			}
 		}
 	}
@@ -311,6 +318,31 @@ func TestC02(t *testing.T) {
 	if r.Violations() > 0 {
 		return
 	}
+	kit.RegisterReplayer("C02", "overlap", c02Replay)
+	r.Rapid("overlap", kit.Pick(5000, 300000), func(rt *rapid.T) {
+		var d *ref.Doc
+		schema := gen.OverlapSchema
+		if rapid.IntRange(0, 4).Draw(rt, "intro") == 0 {
+			d, schema = gen.IntrospectionDocument(rt), c08Schema
+		} else {
+			d = gen.OverlapDocument(rt, rapid.IntRange(0, 3).Draw(rt, "acyclic") == 0)
+		}
+		c := valCase{Schema: schema, Query: gen.JoinPlain(gen.QueryLexemes(d, gen.Canon)), Class: "overlap"}
+		// the process may die (stack exhaustion): the driver then reports this file as the replay
+		writeInflight("C02", "overlap", c)
+		r.Begin("overlap", func() interface{} { return c })
+		defer r.End()
+		v, ran := c02Eval(c)
+		r.Case(ran, c.Query)
+		r.Class("overlap")
+		if ran && r.WantSample("overlap") {
+			r.Sample("overlap", c)
+		}
+		if v != "" {
+			r.Failf(rt, "overlap", c, "%s", v)
+		}
+	})
+	clearInflight()
 	r.Rapid("pair", kit.Pick(4000, 200000), func(rt *rapid.T) {
 		var c valCase
 		switch k := rapid.IntRange(0, 5).Draw(rt, "class"); k {
